@@ -33,7 +33,8 @@ type symbol struct {
 	Mask  int    // QR mask
 	DMi   int    // index into dm.Symbols
 	Text  string
-	ord   int // position in the symbol list (deterministic tie-break)
+	ord   int  // position in the symbol list (deterministic tie-break)
+	Twin  bool // the text is twinText (near-identical data blocks)
 
 	w, h    int
 	rows    []*gozxing.BitArray // pristine rows; every decode gets a fresh matrix
@@ -211,8 +212,28 @@ func buildQR(v, l, mask int) (s *symbol, problem string) {
 	if n < 1 {
 		n = 1
 	}
-	text := payload(n, v*4+l)
-	s = &symbol{Kind: "qr", Class: fmt.Sprintf("v%d", v), V: v, L: l, Mask: mask, Text: text}
+	return buildQRText(v, l, mask, payload(n, v*4+l), false)
+}
+
+// twinText is a byte-mode text of exactly the capacity whose period is the length of the (short)
+// data blocks: every data block then carries the same codewords as the block before it, except
+// for the two codewords that hold the mode and count header (first block) and, in long blocks, the
+// extra last codeword.
+func twinText(v, l int) string {
+	L := qr.Level(l)
+	n := qr.Capacity(v, L, qr.Byte)
+	per := qr.Blocks(v, L)[0]
+	b := make([]byte, n)
+	for i := range b {
+		b[i] = alphabet[(i%per*7+3)%len(alphabet)]
+	}
+	b[0] = 'q'
+	return string(b)
+}
+
+func buildQRText(v, l, mask int, text string, twin bool) (s *symbol, problem string) {
+	L := qr.Level(l)
+	s = &symbol{Kind: "qr", Class: fmt.Sprintf("v%d", v), V: v, L: l, Mask: mask, Text: text, Twin: twin}
 	var code *qrencoder.QRCode
 	var err error
 	msg, site := mc.Guard(func() {
